@@ -26,6 +26,10 @@ impl<'a> WireFormat<'a> for ZONEMD<'a> {
     where
         Self: Sized,
     {
+        if *position + 6 > data.len() {
+            return Err(crate::SimpleDnsError::InsufficientData);
+        }
+
         let serial = u32::from_be_bytes(data[*position..*position + 4].try_into()?);
         *position += 4;
         let scheme = data[*position];
